@@ -46,6 +46,29 @@ func F§() {
 	_, _ = regexp.Compile("a**|(|x")
 	_ = regexp.MustCompile("")
 }
+### re_crossfile | api
+func F§() {
+	_ = regexp.MustCompile(gPat)
+	_ = regexp.MustCompile((gPat2))
+	_, _ = regexp.Compile(gPat3)
+	_ = regexp.MustCompile(gPat + "|" + gPat2)
+}
+### re_huge | api
+const (
+	rl0§ = "aaaaaaaaaaaaaaaa"
+	rl1§ = rl0§ + rl0§ + rl0§ + rl0§
+	rl2§ = rl1§ + rl1§ + rl1§ + rl1§
+	rl3§ = rl2§ + rl2§ + rl2§ + rl2§
+	rl4§ = rl3§ + rl3§ + rl3§ + rl3§
+	rl5§ = rl4§ + rl4§ + rl4§ + rl4§
+	rl6§ = rl5§ + rl5§ + rl5§ + rl5§
+)
+func F§() {
+	_ = regexp.MustCompile(rl6§ + "[a-z](x|y)$")
+	_, _ = regexp.Compile(rl6§ + rl6§)
+	_ = regexp.MustCompile(rl5§ + "(?i)x{1,1}")
+	_ = regexp.MustCompile("^" + rl4§ + "a.com")
+}
 ### re_x0 | api,namesake,emptyargs | shape=X
 func F§() {
 	regexp.MustCompile()
@@ -742,6 +765,12 @@ func Big§[T any](p Pair§[string, T], q Pair§[int, [128]int], arr [64]T) T {
 		_ = y
 	}
 	var z T
+	_ = arr
+	_ = p
+	_ = [2]T{}
+	_ = struct{ f T }{}
+	q2 := [3]Pair§[int, T]{}
+	_ = q2
 	_ = any(z) == any(z)
 	if any(z) == nil {
 		return z
@@ -1473,6 +1502,30 @@ type (
 //«c»
 func (A§) M() {}
 
+func mixed§() {
+	//«c»
+	/*«c»*/
+	//«c»
+	x := 1
+	/* «c» */
+	// «c»
+	// «c»
+	_ = x
+	//«c»
+	/*«c»*/ /*«c»*/
+	//«c»
+}
+
+//«c»
+/*«c»*/
+//«c»
+var W§ = 2
+
+/*«c»*/
+//«c»
+//«c»
+func mixed2§() {}
+
 // J§ does.
 //«c»
 func J§(
@@ -1536,6 +1589,31 @@ func F§() {
 	func(a int, b ...int) {}(f2())
 	func(a, b int, c ...func()) {}(f2())
 }
+### pkgvar_reassign | stmts
+func A§() error {
+	if lastErr§ = fe§(); lastErr§ != nil {
+		return lastErr§
+	}
+	if cnt§ = fi(); cnt§ > 1 {
+		cnt§++
+	}
+	return nil
+}
+
+var lastErr§ error
+var cnt§ int
+
+func B§() error {
+	if lastErr§ = fe§(); lastErr§ != nil {
+		return lastErr§
+	}
+	if cnt§ = fi(); cnt§ > 1 {
+		cnt§++
+	}
+	return nil
+}
+
+func fe§() error { return nil }
 ### shadowing | namesake | free
 type string§ = string
 func F§(fmt, os, strings, filepath, sort, regexp, log, http, time, io, errors, flag, bytes, sync int) int {
